@@ -453,7 +453,7 @@ class IrToPythonCompiler:
     def gen_cast(self, ins):
         if ins.ty.is_integer:
             self.emit(
-                f"{ins.name} = rt.correct(int(round({ins.src.name})), "
+                f"{ins.name} = rt.correct(int({ins.src.name}), "
                 + f"{ins.ty.bits}, {ins.ty.signed})"
             )
         elif ins.ty is ir.ptr:
